@@ -3,11 +3,23 @@ import TTV.Model.Result
 namespace TTV.ResC04
 open TTV.Result
 
+/-- a test of the module given to `testtools.run`: one that ends with an outcome, or one whose code calls
+`sys.exit(code)` (`none` = `sys.exit()` / `sys.exit(None)`) -/
+inductive PKind where
+  | out (k : Kind)
+  | exit (code : Option Nat)
+deriving Repr, DecidableEq
+
+/-- what is reported for the test: a `SystemExit` is recorded as an error (`last_resort`) before it propagates -/
+def PKind.kind : PKind → Kind
+  | .out k => k
+  | .exit _ => .error
+
 structure Input where
   shape : Shape
   hist : List Call
   /-- `testtools.run` on a module of real test cases with these outcomes (`-f` = the flag) -/
-  prog : Option (Bool × List Kind)
+  prog : Option (Bool × List PKind)
 deriving Repr
 
 /-- what is read off the graph after a call -/
@@ -80,9 +92,32 @@ def progCalls (ff : Bool) : Nat → List Kind → List Call
     [.startTest i, .add k i (if k = .success || k = .uxsuccess then .none else .details []), .stopTest i]
     ++ (if ff && !(k.passing) then [] else progCalls ff (i + 1) ks)
 
-def runProg (ff : Bool) (ks : List Kind) : Nat × List Out :=
+def runProgK (ff : Bool) (ks : List Kind) : Nat × List Out :=
   let st : TextSt := run (.text ff) (init (.text ff)) ([.startTestRun] ++ progCalls ff 0 ks ++ [.stopTestRun])
   (if st.tt.wasSuccessful then 0 else 1, st.out)
+
+/-- the tests up to and including the first one that calls `sys.exit`: `SystemExit` propagates out of `TestCase.run`
+and out of the suite (by design), nothing after it is dispatched -/
+def cutAtExit : List PKind → List PKind
+  | [] => []
+  | .exit c :: _ => [.exit c]
+  | p :: ps => p :: cutAtExit ps
+
+/-- what is reported for the tests of the module, as far as they can be dispatched at all -/
+def progKinds (ps : List PKind) : List Kind := (cutAtExit ps).map PKind.kind
+
+/-- the `sys.exit` test that is reached (with `-f` an earlier bad outcome stops the suite first), with its code -/
+def progExit (ff : Bool) : List PKind → Option (Option Nat)
+  | [] => none
+  | .exit c :: _ => some c
+  | .out k :: ps => if ff && !k.passing then none else progExit ff ps
+
+/-- `testtools.run`: `TestToolsTestRunner.run` prints the summary in its `finally` block; then either
+`sys.exit(not result.wasSuccessful())`, or — the test's `SystemExit` is still propagating and that line is never
+reached — the process ends with the code the *test* gave (`None` counts as 0) -/
+def runProg (ff : Bool) (ps : List PKind) : Nat × List Out :=
+  let r := runProgK ff (progKinds ps)
+  (match progExit ff ps with | some c => c.getD 0 | none => r.1, r.2)
 
 def model (i : Input) : Trace :=
   let st0 := init i.shape
